@@ -12,7 +12,7 @@ import bind  # noqa: E402
 LEVEL = "model_checking"
 ENGINE = "vsched"
 TECHNIQUE = ("stateless preemption-bounded model checking of the real src/abg-workers.cc under a controlled scheduler (all interleavings at pthread calls, all signal-one waiter choices, "
-             "spurious wake-ups), plus a TLA+ model checked by TLC (safety, deadlock freedom, termination under weak fairness) bound to the code in both directions through TLC's state graph; ThreadSanitizer companion run")
+             "spurious wake-ups, optional extra scheduling points after every unlock), plus a TLA+ model checked by TLC (safety, deadlock freedom, termination under weak fairness) bound to the code in both directions through TLC's state graph; ThreadSanitizer companion run")
 RULE = ("direct: for each configuration (workers W, tasks T, usage style, preemption bound, spurious budget) depth-first enumeration of ALL schedules within the bound on the unmodified queue code; "
         "a state is a distinct key (per-thread histories incl. shared state read, mutex owners, waiter sets, queue contents, counters, remaining budget), a transition is a scheduling decision; "
         "oracle on every complete execution: wait returned, each task performed once, completed tasks a permutation, notifier once per task and never overlapping, no deadlock/livelock/abort. "
@@ -34,8 +34,8 @@ def prepare(ctx):
     _tsan = probe.build_probe("tsan", "tsan_wq")
 
 
-def _cfg(W, T, style, pb, spur):
-    return {"mode": "explore", "W": W, "T": T, "style": style, "pb": pb, "spur": spur}
+def _cfg(W, T, style, pb, spur, window=0):
+    return {"mode": "explore", "W": W, "T": T, "style": style, "pb": pb, "spur": spur, "window": window}
 
 
 def stages(ctx):
@@ -46,10 +46,14 @@ def stages(ctx):
     st = [("preempt<=1", s1 + [{"mode": "tsan", "maxw": 16, "rounds": 2}]),
           ("tlc+binding(W,T<=2)", [{"mode": "bind", "W": 2, "T": 2, "spur": 0}, {"mode": "bind", "W": 1, "T": 2, "spur": 1},
                                    {"mode": "bind", "W": 2, "T": 1, "spur": 1}, {"mode": "tlc", "W": 2, "T": 3, "spur": 1}]),
-          ("preempt<=2(W,T<=2)", s2)]
+          ("preempt<=2(W,T<=2)", s2),
+          # extra scheduling point after every unlock: exposes accesses to shared flags (e.g. atomics, which are not
+          # intercepted) made right after leaving a critical section
+          ("preempt<=2+post-unlock-windows", [_cfg(W, T, st, 2, 0, 1) for (W, T) in ((1, 0), (1, 1), (2, 0), (2, 1), (1, 2), (2, 2)) for st in (0, 2)])]
     if not ctx.quick:
         s3 = [_cfg(W, T, 0, 2, sp) for (W, T) in ((3, 2), (2, 3), (3, 3), (2, 4)) for sp in (0, 1)]
         s4 = [_cfg(W, T, st, 3, sp) for (W, T) in ((1, 2), (2, 1), (2, 2)) for st in (0, 2) for sp in (0, 1)]
+        s4 += [_cfg(W, T, 0, 2, 1, 1) for (W, T) in ((2, 2), (3, 2), (2, 3))] + [_cfg(W, T, 0, 3, 0, 1) for (W, T) in ((1, 1), (2, 1), (1, 2))]
         st += [("tlc-large", [{"mode": "tlc", "W": 3, "T": 3, "spur": 1}, {"mode": "tlc", "W": 2, "T": 4, "spur": 1}, {"mode": "tlc", "W": 3, "T": 4, "spur": 0}]),
                ("preempt<=2(up to 3x3,2x4)", s3),
                ("preempt<=3(W,T<=2)", s4),
@@ -58,15 +62,15 @@ def stages(ctx):
 
 
 def _sig(kind, e):
-    return "C32 api %s queue W%d-T%d-style%d" % (kind, e["W"], e["T"], e["style"])
+    return "C32 api %s queue W%d-T%d-style%d%s" % (kind, e["W"], e["T"], e["style"], "-postunlock" if e.get("window") else "")
 
 
 def evaluate(ctx, e):
     if e["mode"] in ("explore", "replay"):
         if e["mode"] == "replay":
-            rc, out, err = core.run([_exe, "replay", str(e["W"]), str(e["T"]), str(e["style"]), str(e["spur"]), e["choices"]], timeout=120, ctx=ctx)
+            rc, out, err = core.run([_exe, "replay", str(e["W"]), str(e["T"]), str(e["style"]), str(e["spur"]), e["choices"], str(e.get("window", 0))], timeout=120, ctx=ctx)
         else:
-            rc, out, err = core.run([_exe, "explore", str(e["W"]), str(e["T"]), str(e["style"]), str(e["pb"]), str(e["spur"])],
+            rc, out, err = core.run([_exe, "explore", str(e["W"]), str(e["T"]), str(e["style"]), str(e["pb"]), str(e["spur"]), "0", str(e.get("window", 0))],
                                     timeout=max(60, ctx.time_left() + 30), ctx=ctx)
         lines = out.decode(errors="replace").strip().splitlines()
         if rc == "timeout":
